@@ -106,7 +106,7 @@ pub fn replay_other(prop: &str, v: &serde_json::Value) -> i32 {
             let order: Vec<u8> = v["order"].as_str().unwrap_or("").chars().filter_map(|c| model::LETTERS.iter().position(|l| *l == c).map(|x| x as u8)).collect();
             let ask: Vec<usize> = v["questions_before"].as_array().map(|a| a.iter().filter_map(|x| x.as_u64().map(|y| y as usize)).collect()).unwrap_or_default();
             let mut sink = sink::Sink::new();
-            checks2::sparse_setup_walk(&order, &ask, 0, &mut sink);
+            checks2::sparse_setup_walk(&order, &ask, v["walk"].as_u64().unwrap_or(0), &mut sink);
             for x in &sink.violations {
                 println!("  clause={} {}", x.clause, x.detail);
             }
